@@ -189,6 +189,12 @@ def run_case(case, reports=False, keep_objects=False):
                     ctx.add_cleanup(cfun, layer=s["cl_layer"])
                 else:
                     ctx.add_cleanup(cfun)
+            if o.startswith("nest_"):
+                x = {"nest_pass": "pass", "nest_fail": "fail", "nest_error": "error", "nest_pending": "pending"}.get(o, "undef")
+                ctx.execute_steps((u"Given nosub %s %d %d" if x == "undef" else u"Given sub %s %d %d") % (x, sid, pos))
+                events.append(_ev("after_nested", el=sid, pos=pos, att=att, **probe(ctx)))
+                print("A%d_%d" % (sid, pos))
+                return
             if o == "fail":
                 assert False, "M%d_%d" % (sid, pos)
             if o == "error":
@@ -202,6 +208,16 @@ def run_case(case, reports=False, keep_objects=False):
             if o == "badarg":
                 raise AssertionError("badarg must not reach the body")
 
+        def sub_impl(ctx, x, sid, pos):
+            events.append(_ev("sub", el=sid, pos=pos, outcome=x, att=attempts.get(sid, 1), **probe(ctx)))
+            print("N%d_%d" % (sid, pos))
+            if x == "fail":
+                assert False, "sub-step fails"
+            if x == "error":
+                raise RuntimeError("sub-step raises")
+            if x == "pending":
+                raise StepNotImplementedError("sub-step pending")
+
         @parse_mod.with_pattern(r"\d+")
         def conv_bad(text):
             # different exception classes: a converter may raise anything
@@ -209,6 +225,7 @@ def run_case(case, reports=False, keep_objects=False):
             raise kinds[int(text) % len(kinds)]("bad argument %s" % text)
 
         reg.steps["step"].append(ParseMatcher(lambda ctx, org, k: realise(ctx, org, k), "{org:w} {k:d}", "step"))
+        reg.steps["step"].append(ParseMatcher(lambda ctx, x, sid, pos: sub_impl(ctx, x, sid, pos), "sub {x:w} {sid:d} {pos:d}", "step"))
         reg.steps["step"].append(ParseMatcher(lambda ctx, org, k: realise(ctx, org, k), "bad {org:w} {k:Bad}", "step",
                                               custom_types={"Bad": conv_bad}))
         for fn, text in R.files:
@@ -254,7 +271,8 @@ def run_case(case, reports=False, keep_objects=False):
                 elif nm.endswith("_step"):
                     el = elid(ctx.scenario)
                     pos = _pos_from_name(a[0].name, el)
-                    print("H%s%d_%d" % (nm[0], el, pos))
+                    if pos:         # (hooks of nested sub-steps carry position 0 and print nothing)
+                        print("H%s%d_%d" % (nm[0], el, pos))
                 elif a:
                     el = elid(a[0])
                 raised = hookn[0] in faults
@@ -303,7 +321,7 @@ def run_case(case, reports=False, keep_objects=False):
     captured = [[] for _ in range(n)]
 
     def marks(text):
-        return sorted(set(re.findall(r"\b[OELH][ba]?\d+_\d+\b", text or "")))
+        return sorted(set(re.findall(r"\b[OELHNA][ba]?\d+_\d+\b", text or "")))
 
     def walk(x):
         i = elid(x)
